@@ -40,6 +40,12 @@ class FieldDatatype:
     gfapy.ArgumentError
       If **datatype** is not a valid datatype for tags.
     """
+    if fieldname in self.positional_fieldnames:
+      if self.get_datatype(fieldname) != datatype:
+        raise gfapy.RuntimeError(
+          "Cannot set the datatype of {} to {}\n".format(fieldname, datatype)+
+          "The datatype of a positional field cannot be changed")
+      return
     if self._is_predefined_tag(fieldname):
       if self.get_datatype(fieldname) != datatype:
         raise gfapy.RuntimeError(
